@@ -313,7 +313,15 @@ func C18(tier Tier) int {
 						first.Remove(vmcommon.BuiltInFunctionESDTWipe)
 						stub, _ := first.Get(vmcommon.BuiltInFunctionESDTPause)
 						_ = first.Replace(vmcommon.BuiltInFunctionClaimDeveloperRewards, stub)
-						second, err := se.Factory.CreateBuiltInFunctionContainer()
+						// a refused schedule in between must leave the factory able to build
+						se.Factory.GasScheduleChange(nil)
+						se.Factory.GasScheduleChange(map[string]map[string]uint64{vmcommon.BuiltInCostString: {"ESDTTransfer": 1}})
+						var second vmcommon.BuiltInFunctionContainer
+						var err error
+						if pv := guard(func() { second, err = se.Factory.CreateBuiltInFunctionContainer() }); pv != nil {
+							reg.Fail(P, "registry", "second-container:panic", fmt.Sprintf("CreateBuiltInFunctionContainer after two refused gas schedules panicked: %v", pv), "case", "second")
+							continue
+						}
 						if err != nil || second == nil {
 							reg.Fail(P, "registry", "second-container:error", fmt.Sprintf("second CreateBuiltInFunctionContainer on the same factory: %v", err), "case", "second")
 						} else {
